@@ -88,6 +88,13 @@ def label_source():
     else:
         src.post_send(got[1])
         if [dict(e) for e in own.labels['schedule']] != [{'cron': '5 * * * *'}]: fails.append({'key': 'shadowed-global-task/post_send', 'failed_clauses': [f"C16: the fired one-shot entry of the own task was not removed when a foreign task shares its name: {own.labels['schedule']}"]})
+    # payload fidelity: names, label keys/values and keyword arguments that carry blanks or capitals are the schedule's payload exactly as declared
+    fresh_registry(); b = InMemoryBroker(); n += 1
+    tk = b.register_task(f, task_name=' Padded Task ', schedule=[{'cron': '7 * * * *', 'labels': {' Key ': ' Value '}, 'kwargs': {' kw ': ' v '}, 'args': [' a ']}])
+    got = asyncio.run(LabelScheduleSource(b).get_schedules())
+    have = [(s.task_name, {k: v for k, v in s.labels.items() if k != 'schedule'}, s.args, s.kwargs, s.cron) for s in got]
+    want = [(' Padded Task ', {' Key ': ' Value '}, [' a '], {' kw ': ' v '}, '7 * * * *')]
+    if have != want: fails.append({'key': 'payload-fidelity', 'failed_clauses': [f"C16: a schedule declared as (task name, labels, args, kwargs, cron) = {want[0]} is listed as {have} - the payload that will be sent is not the declared one"]})
     fresh_registry()
     return fails, n
 
@@ -143,6 +150,23 @@ async def on_ready_case(pre_kind, is_async, kick_fails):
     return pr
 
 # ---------------------------------------------------------------- (c)
+async def on_ready_history():
+    """history on ONE scheduler object: the schedule stored under a (user-chosen) schedule_id is replaced by another payload between two firings"""
+    from taskiq import InMemoryBroker, TaskiqScheduler, ScheduleSource
+    from taskiq.scheduler.scheduled_task import ScheduledTask
+    fresh_registry(); sent = []
+    class B(InMemoryBroker):
+        async def kick(self, m): sent.append((m.task_name, {k: str(v) for k, v in m.labels.items()}))
+    class S(ScheduleSource):
+        async def get_schedules(self): return []
+    b = B(); sch = TaskiqScheduler(b, [S()])
+    firings = [ScheduledTask(task_name='report_eu', labels={'region': 'eu', 'dry_run': True}, args=['mon'], kwargs={}, cron='* * * * *', schedule_id='daily-report'),
+               ScheduledTask(task_name='report_eu', labels={'region': 'eu', 'dry_run': True}, args=['tue'], kwargs={}, cron='* * * * *', schedule_id='daily-report'),
+               ScheduledTask(task_name='report_us', labels={'region': 'us'}, args=['wed'], kwargs={}, cron='* * * * *', schedule_id='daily-report')]
+    for t in firings: await sch.on_ready(sch.sources[0], t)
+    want = [(t.task_name, {**{k: str(v) for k, v in t.labels.items()}, 'schedule_id': t.schedule_id}) for t in firings]
+    return [] if sent == want else [f"C16: three firings under one schedule_id (the schedule was replaced before the third): sent (task name, labels) {sent}, the schedules that fired say {want}"]
+
 async def kiq_case(asyncs, fail_at):
     from taskiq import InMemoryBroker, TaskiqMiddleware
     from taskiq.exceptions import SendTaskError
@@ -208,8 +232,11 @@ def loop_case(start_off, horizon, oneshots, crons, failing_source, failing_send,
     async def f(): pass
     for i, off in enumerate(oneshots): b.register_task(f, task_name=f'once{i}', schedule=[{'time': BASE + _dt.timedelta(seconds=off)}])
     for i, c in enumerate(crons): b.register_task(f, task_name=f'cron{i}', schedule=[dict(c) if isinstance(c, dict) else {'cron': c}])          # a dict entry may carry a cron_offset
-    class Bad(ScheduleSource):
-        async def get_schedules(self): raise RuntimeError("listing failed")
+    class Bad(ScheduleSource):          # the failure differs from poll to poll: with a message, without any argument (as asyncio.wait_for's TimeoutError() or a bare `raise ConnectionResetError`), a KeyError
+        calls = 0
+        async def get_schedules(self):
+            Bad.calls += 1
+            raise (RuntimeError("listing failed"), asyncio.TimeoutError(), ConnectionResetError(), KeyError('k'))[Bad.calls % 4]
     class Slow(LabelScheduleSource):
         async def get_schedules(self):
             await asyncio.sleep(slow_listing); return await super().get_schedules()
@@ -224,6 +251,14 @@ def loop_case(start_off, horizon, oneshots, crons, failing_source, failing_send,
     class AsyncStable(Stable):          # the same with an `async def post_send` (allowed by ScheduleSource): on_ready must await it
         async def post_send(self, task): Stable.post_send(self, task)
     sources = [Slow(b) if slow_listing else ((AsyncStable if stable_ids == 'async' else Stable)(LabelScheduleSource(b)) if stable_ids else LabelScheduleSource(b))] + ([Bad()] if failing_source else [])
+    class Runaway(BaseException): pass
+    polls = [0]; poll_cap = (int(horizon // 60) + 3) * 10
+    for src_ in sources:          # a poll is due at start and at every minute boundary: far more polls than minutes means the sleep between polls is not positive
+        def counted(orig=src_.get_schedules):
+            polls[0] += 1
+            if polls[0] > poll_cap * len(sources): raise Runaway()
+            return orig()
+        src_.get_schedules = counted
     sched = TaskiqScheduler(b, sources)
     async def main():
         await asyncio.sleep(start_off)
@@ -239,7 +274,8 @@ def loop_case(start_off, horizon, oneshots, crons, failing_source, failing_send,
     try: loop.run_until_complete(main())
     finally: loop.close(); run_mod.datetime = real_dt
     pr = []
-    if any(s[0] == 'LOOP DIED' for s in sent): pr.append(f"C15: the scheduler loop stopped: {sent[-1]}")
+    if any(s == ('LOOP DIED', 'Runaway') for s in sent): pr.append(f"C15: the scheduler polled its sources more than {poll_cap} times within {horizon / 60:.0f} minutes (one poll is due at start and one per minute boundary): the sleep until the next boundary is not positive" + (f" [host UTC offset {host_offset_h:+}h]" if host_offset_h else ""))
+    elif any(s[0] == 'LOOP DIED' for s in sent): pr.append(f"C15: the scheduler loop stopped: {sent[-1]}")
     if check_oneshots is None: check_oneshots = not slow_listing          # with a very slow source only 'never twice in one minute' is checked (a listing that ends after T sends late by design)
     for i, off in enumerate(oneshots if check_oneshots else []):
         k = [s for s in sent if s[1] == f'once{i}']
@@ -282,6 +318,9 @@ def run(sc):
                 for kick_fails in (False, True):
                     pr = asyncio.run(on_ready_case(pre_kind, is_async, kick_fails)); n += 1
                     if pr: fails.append({'key': f"on_ready/{pre_kind}/{is_async}/{kick_fails}", 'failed_clauses': pr})
+    if 'on_ready' in which:
+        pr = asyncio.run(on_ready_history()); n += 1
+        if pr: fails.append({'key': 'on_ready/history-same-schedule-id', 'failed_clauses': pr})
     if 'kiq' in which:
         for asyncs in itertools.product((False, True), repeat=2):
             for fail_at in (None, 'kick'):
